@@ -46,7 +46,7 @@ type fieldAccess struct {
 
 func fieldAccesses(fn *ssa.Function, table map[string]guardSpec) []fieldAccess {
 	var out []fieldAccess
-	for _, b := range fn.Blocks {
+	for _, b := range core.Blocks(fn) {
 		for _, in := range b.Instrs {
 			switch x := in.(type) {
 			case *ssa.FieldAddr:
@@ -290,7 +290,7 @@ func c16(w *core.World, r *core.Report) {
 				return ""
 			}
 			seen[f] = true
-			for _, b := range f.Blocks {
+			for _, b := range core.Blocks(f) {
 				for _, in := range b.Instrs {
 					switch x := in.(type) {
 					case *ssa.Select:
